@@ -1107,13 +1107,18 @@ func clipBorderSegment(context backend.Canvas, style pr.String, width fl, side p
 		} else {
 			// 2x + 1 dashes
 			context.State().Clip(true)
-			ld := fl(math.Round(float64(length / dash)))
+			// at least one dash, also for a side shorter than half a dash
+			ld := utils.MaxF(fl(math.Round(float64(length/dash))), 1)
 			denom := ld - utils.FloatModulo(ld+1, 2)
 			dash = length
 			if denom != 0 {
 				dash /= denom
 			}
 			maxI := int(math.Round(float64(length / dash)))
+			if !(dash > 0) {
+				// side without length: one empty dash, so that the path to clip is not empty
+				dash, maxI = 0, 1
+			}
 			for i_ := 0; i_ < maxI; i_ += 2 {
 				i := fl(i_)
 				switch side {
